@@ -191,6 +191,46 @@ var microQueries = []struct{ sql, want string }{
 	{`SELECT number FROM numbers(3)`, `0;1;2`},
 	{`select a from t where a=1 or a=2 order by a desc limit 1`, `2`},
 	{`SELECT greatest(1, 3, 2), least(2, 1), abs(-3), round(2.5), round(3.5), floor(1.7), ceil(1.2), sqrt(4), pow(2, 3), exp(0), log(1)`, `3|1|3|2|4|1|2|2|8|1|0`},
+	// shapes taken from the harvested corpus (metric, TraceQL, PromQL, pyroscope planners)
+	{`SELECT b, arraySlice(arraySort(x -> (-x.1, x.2), groupArray((c, a))), 1, 2) AS slice FROM t GROUP BY b ORDER BY b`, `'x'|[(3.5,3),(1.5,1)];'y'|[(2.5,2)];'z'|[(0,4)]`},
+	{`WITH par AS (SELECT b, arraySlice(arraySort(x -> (-x.1, x.2), groupArray((c, a))), 1, 1) AS slice FROM t GROUP BY b) SELECT par.b, arr_b.1 AS value, arr_b.2 AS fp FROM par array JOIN par.slice AS arr_b HAVING value > 1 ORDER BY fp`, `'y'|2.5|2;'x'|3.5|3`},
+	{`SELECT intDiv(a, 2) * 2 - 1 AS ts, toFloat64(COUNT()) / 2.000000 AS value FROM t GROUP BY ts ORDER BY ts`, `-1|0.5;1|1;3|0.5`},
+	{`SELECT b, groupArray(2)(a) AS ids, groupUniqArray(10)(b) FROM t GROUP BY b HAVING (bitAnd(groupBitOr(bitShiftLeft(toUInt64(a > 1), 0) + bitShiftLeft(toUInt64(c > 3), 1)) AS bs, 3)) != (0) ORDER BY max(t.a) DESC`, `'z'|[4]|['z'];'x'|[1,3]|['x'];'y'|[2]|['y']`},
+	{`SELECT (arrayFirst(y -> y.1 == 'k2', tags) AS af).2, af.1 FROM arr ORDER BY id`, `'v2'|'k2';''|'';''|''`},
+	{`SELECT id, arrayExists(x -> (x.1) == ('k1'), tags) == 1, arrayFilter(x -> x.1 IN ('k2'), tags) FROM arr ORDER BY id`, `1|1|[('k2','v2')];2|0|[];3|1|[]`},
+	{`SELECT sum(value.1) / sum(value.2) FROM (SELECT (sum(c), toFloat64(count())) AS value FROM t GROUP BY b)`, `1.875`},
+	{`SELECT lower(hex(unhex('0A0B'))) AS h, arrayMap(x -> lower(hex(x)), [unhex('FF')]), toString(toUInt64(1)) || 's'`, `'0a0b'|['ff']|'1s'`},
+	{`SELECT a FROM t WHERE (cityHash64(b) % 3) == (cityHash64('x') % 3) AND b = 'x' ORDER BY a`, `1;3`},
+	{`SELECT count(distinct a), max(a) FROM t WHERE (a, b) IN (SELECT a, b FROM t WHERE a < 3)`, `2|2`},
+	{`SELECT key, val FROM (SELECT 'k' AS key, 'v' AS val UNION ALL SELECT 'k' AS key, 'w' AS val) GROUP BY key, val ORDER BY val`, `'k'|'v';'k'|'w'`},
+	{`SELECT DISTINCT key FROM (SELECT 'a' AS key UNION ALL SELECT 'a' AS key UNION ALL SELECT 'b' AS key) ORDER BY key`, `'a';'b'`},
+	{`SELECT any(non_empty), (SELECT count() FROM t) AS c FROM (SELECT 1 AS non_empty FROM t LIMIT 1)`, `1|4`},
+	{`SELECT min(ts), max(ts), toUnixTimestamp(toDate(intDiv(min(ts), 1000000000))) FROM (SELECT 1709287200000000000 + a AS ts FROM t)`, `1709287200000000001|1709287200000000004|1709251200`},
+	{`SELECT a, sum(c) FROM t GROUP BY a, b HAVING a IN (1, 2) ORDER BY a`, `1|1.5;2|2.5`},
+	{`SELECT mapFilter((k, v) -> k IN ('a'), mapFromArrays(arrayMap(x -> x.1, JSONExtractKeysAndValues('{"a":"1","b":"2"}', 'String') AS rawlbls), arrayMap(x -> x.2, rawlbls))) AS labels, cityHash64(labels) = cityHash64(mapFromArrays(['a'], ['1']))`, `{'a':'1'}|1`},
+	{`SELECT cityHash64(arraySort(arrayZip(mapKeys(m), mapValues(m)))) = cityHash64(arraySort(arrayZip(['b', 'a'], ['2', '1']))) FROM (SELECT mapFromArrays(['a', 'b'], ['1', '2']) AS m)`, `1`},
+	{`SELECT toFloat64OrZero('1.5') > -1.500000, toFloat64OrZero('x'), isNotNull(toFloat64OrNull('7')) == 1, toFloat64(1) == 1`, `1|0|1|1`},
+	{`SELECT quantile(0.990000)(c), stddevPop(c), varPop(c), stddevSamp(a), varSamp(a) FROM t WHERE a < 3`, `2.49|0.5|0.25|0.7071067811865476|0.5`},
+	{`SELECT a FROM t WHERE toDate('2024-03-01') >= toDate('2024-03-01') AND toDate('2024-03-01') <= toDate('2024-03-02') AND a = 1`, `1`},
+	{`SELECT argMax(b, a), argMin(b, a), argMax((a, b), c).2, any(b), anyLast(b) FROM t`, `'z'|'x'|'x'|'x'|'z'`},
+	{`SELECT a FROM t ORDER BY c DESC, a LIMIT 2`, `3;2`},
+	{`SELECT x, count() FROM (SELECT a % 2 AS x FROM t) GROUP BY x ORDER BY x DESC`, `1|2;0|2`},
+	{`SELECT sumIf(c, b = 'x'), avgIf(c, b = 'x'), minIf(c, c > 2), maxIf(c, c < 2), countIf(b = 'x'), anyIf(b, a = 2) FROM t`, `5|2.5|2.5|1.5|2|'y'`},
+	{`SELECT splitByChar(':', 'cpu:nanoseconds')[1] AS t1, splitByChar(':', 'cpu:nanoseconds')[2], concatWithSeparator(':', 'a', 'b') AS ty, arrayStringConcat(arrayMap(x -> x.1 || ':' || x.2, arraySort([('s', 'c'), ('c', 'n')])), ';')`, `'cpu'|'nanoseconds'|'a:b'|'c:n;s:c'`},
+	{`SELECT arrayConcat(tags, [('service_name', 'svc')]) FROM arr WHERE id = 3`, `[('k1','w'),('service_name','svc')]`},
+	{`SELECT a, b FROM t WHERE b NOT IN ('x') AND a NOT IN (SELECT a FROM u) ORDER BY a`, `2|'y';4|'z'`},
+	{`SELECT k, v IS NULL, ifNull(v, -1), coalesce(v, 0) + 1, assumeNotNull(v) FROM n WHERE k = 'a' ORDER BY v`, `'a'|0|1|2|1;'a'|1|-1|1|0`},
+	{`SELECT 1 WHERE NULL`, ``},
+	{`SELECT count() FROM t WHERE NOT (a > 2)`, `2`},
+	{`SELECT a FROM t WHERE a > 1 AND (b = 'x' OR b = 'z') ORDER BY a`, `3;4`},
+	{`SELECT tupleElement(p, 1), p.2 FROM (SELECT (a, b) AS p FROM t WHERE a = 2)`, `2|'y'`},
+	{`SELECT arrayMap(x -> (x, arrayMap(y -> y + x, [10, 20])), [1, 2])`, `[(1,[11,21]),(2,[12,22])]`},
+	{`SELECT arrayMap(x -> x + a, [1, 2]) FROM t WHERE a = 3`, `[4,5]`},
+	{`SELECT length(groupArray(a)), arraySum(groupArray(a)) FROM t`, `4|10`},
+	{`SELECT t.a, u.d FROM t ANY LEFT JOIN u ON t.a = u.a WHERE u.d = '' ORDER BY t.a`, `2|'';4|''`},
+	{`SELECT s1.a FROM t AS s1 INNER ANY JOIN (SELECT a FROM u) AS s2 ON s1.a = s2.a ORDER BY s1.a`, `1;3`},
+	{`SELECT a FROM (SELECT a FROM t ORDER BY a DESC LIMIT 3) ORDER BY a LIMIT 1`, `2`},
+	{`SELECT toStartOfDay(toDateTime(1709287200)), toDate(toDateTime(1709287200)), FROM_UNIXTIME(intDiv(1709287200000000000, 1000000000))`, `'2024-03-01 00:00:00'|'2024-03-01'|'2024-03-01 10:00:00'`},
 	{`SELECT toDate('2024-03-01') + INTERVAL '1 day', toDate('2024-03-01') - INTERVAL 1 DAY, toDateTime('2024-03-01 00:00:00') + INTERVAL 1 HOUR`, `'2024-03-02'|'2024-02-29'|'2024-03-01 01:00:00'`},
 }
 
